@@ -46,38 +46,47 @@ fn query_points(r: &mut Rng, pts: &[Vec<i64>], cap: usize) -> Vec<Vec<i64>> {
 fn churn<K: Kern<D>, const D: usize>(cx: &mut Ctx, r: &mut Rng, dt: &mut Dt<K, D>, mode: usize) -> (Vec<CellKey>, Vec<VertexKey>) {
     let before_c: Vec<CellKey> = dt.tds().cell_keys().collect();
     let before_v: Vec<VertexKey> = dt.tds().vertex_keys().collect();
-    match mode % 4 {
-        0 => {}
-        1 => {
-            // a couple of insertions
-            for _ in 0..2 {
-                let p = random_points(r, D, 1, max_coord(D))[0].clone();
+    // a random sequence of 0..5 mutations: insertions, removals (then re-insertions reuse freed
+    // storage slots), Edit-API flips, repair
+    let steps = if mode % 4 == 0 { 0 } else { 2 + r.below(4) };
+    let mut removed_pos: Vec<Vec<i64>> = Vec::new();
+    for _ in 0..steps {
+        match r.below(5) {
+            0 | 1 => {
+                let p = if !removed_pos.is_empty() && r.chance(1, 2) { removed_pos.pop().unwrap() } else { random_points(r, D, 1, max_coord(D))[0].clone() };
                 let v = VIn::lattice(cx.fresh_uuid(), p, Some(5));
                 if !op_insert(&mut cx.tr, 0, dt, &v, false) {
                     break;
                 }
             }
-        }
-        2 => {
-            // remove an interior-ish vertex (any vertex; failure is fine)
-            let vs: Vec<_> = dt.vertices().map(|(_, v)| v.uuid()).collect();
-            if vs.len() > D + 2 {
-                let u = *r.pick(&vs);
-                op_remove(&mut cx.tr, 0, dt, u);
-            }
-        }
-        _ => {
-            // flips then repair
-            let cks: Vec<CellKey> = dt.tds().cell_keys().collect();
-            for _ in 0..3 {
-                let ck = *r.pick(&cks);
-                let fa = FlipArg::K2(ck, r.below(D + 1) as u8);
-                let out = op_flip(&mut cx.tr, 0, dt, &fa, 0, "churn");
-                if out.panicked {
-                    break;
+            2 | 3 => {
+                let vs: Vec<_> = dt.vertices().map(|(_, v)| *v).collect();
+                if vs.len() > D + 2 {
+                    let v = *r.pick(&vs);
+                    let (m, pert, _, _) = cx.tr.coord_proj(v.point().coords());
+                    if !op_remove(&mut cx.tr, 0, dt, v.uuid()) {
+                        break;
+                    }
+                    if !pert {
+                        removed_pos.push(m);
+                    }
                 }
             }
-            op_repair(&mut cx.tr, 0, dt, false, None, 7);
+            _ => {
+                let cks: Vec<CellKey> = dt.tds().cell_keys().collect();
+                if cks.is_empty() {
+                    break;
+                }
+                for _ in 0..2 {
+                    let ck = *r.pick(&cks);
+                    let fa = FlipArg::K2(ck, r.below(D + 1) as u8);
+                    let out = op_flip(&mut cx.tr, 0, dt, &fa, 0, "churn");
+                    if out.panicked {
+                        break;
+                    }
+                }
+                op_repair(&mut cx.tr, 0, dt, false, None, 7);
+            }
         }
     }
     let stale_c: Vec<CellKey> = before_c.into_iter().filter(|k| !dt.tds().contains_cell(*k)).collect();
@@ -720,4 +729,168 @@ pub fn drive_extreme(cx: &mut Ctx) {
             dispatch!(d, k, extreme_case(cx, &mut r, i));
         }
     }
+}
+
+// ---------------------------------------------------------------------------------------
+// C08 mechanism binding: every flip the repair loops apply, recorded through the flip-trace hook
+// ---------------------------------------------------------------------------------------
+fn cells_as_ids<K: Kern<D>, const D: usize>(tr: &mut Tracer, dt: &Dt<K, D>) -> Vec<Vec<i64>> {
+    let mut cs: Vec<Vec<i64>> = dt
+        .cells()
+        .map(|(_, c)| {
+            let mut v: Vec<i64> = c.vertices().iter().map(|vk| tr.vkey_id(dt.tds(), *vk)).collect();
+            v.sort_unstable();
+            v
+        })
+        .collect();
+    cs.sort();
+    cs
+}
+
+fn repairtrace_case<K: Kern<D>, const D: usize>(cx: &mut Ctx, r: &mut Rng, idx: usize) {
+    use delaunay::core::algorithms::flips::verif_flip_trace;
+    let g = GUARANTEES[idx % 3];
+    cx.tr.reset_ids();
+    cx.tr.tag = format!("C08 repairtrace D={D} k={} i={idx}", K::NAME);
+    let hi = max_coord(D);
+    let n = D + 3 + r.below(if D == 2 { 5 } else { 3 });
+    let pts = if idx % 4 == 3 { random_points(r, D, n, hi) } else { gp_points(r, D, n.min(9), hi) };
+    if pts.len() < D + 2 {
+        return;
+    }
+    // non-Delaunay start: incremental insertion with repair disabled, or flips on a constructed one
+    let s = cx.tr.s;
+    let mut dt = Dt::<K, D>::with_empty_kernel_and_topology_guarantee(K::default(), g);
+    dt.set_delaunay_repair_policy(DelaunayRepairPolicy::Never);
+    for p in &pts {
+        let v = VIn::lattice(cx.fresh_uuid(), p.clone(), None);
+        if dt.insert(v.vertex::<D>(s)).is_err() {
+            return;
+        }
+    }
+    // a few geometry-preserving flips away from Delaunay
+    for _ in 0..(idx % 4) {
+        let cks: Vec<CellKey> = dt.tds().cell_keys().collect();
+        let ck = *r.pick(&cks);
+        let i = r.below(D + 1) as u8;
+        let mut probe = dt.clone();
+        if probe.flip_k2(delaunay::core::facet::FacetHandle::new(ck, i)).is_ok() && probe.as_triangulation().is_valid().is_ok() {
+            let _ = dt.flip_k2(delaunay::core::facet::FacetHandle::new(ck, i));
+        }
+    }
+    if dt.number_of_cells() == 0 || dt.vertices().any(|(_, v)| cx.tr.coord_proj(v.point().coords()).1) {
+        return; // perturbed vertices: exact model geometry would not apply
+    }
+    // vertex ids 1..n in a fixed order, positions by id
+    let mut vs: Vec<(i64, Vec<i64>)> = dt.vertices().map(|(_, v)| (cx.tr.vid(v.uuid()), cx.tr.coord_proj(v.point().coords()).0)).collect();
+    vs.sort();
+    let pts_by_id: Vec<Vec<i64>> = vs.iter().map(|x| x.1.clone()).collect();
+    let pre = cells_as_ids(&mut cx.tr, &dt);
+    let adv = idx % 2 == 1;
+    verif_flip_trace::start();
+    let g2 = cx.tr.guard("repair(traced)", || {
+        if adv {
+            dt.repair_delaunay_with_flips_advanced(delaunay::core::delaunay_triangulation::DelaunayRepairHeuristicConfig::default())
+                .map(|o| (o.stats.flips_performed, o.used_heuristic()))
+                .map_err(|e| variant(&e))
+        } else {
+            dt.repair_delaunay_with_flips().map(|s| (s.flips_performed, false)).map_err(|e| variant(&e))
+        }
+    });
+    let steps_raw = verif_flip_trace::take();
+    match g2 {
+        Guarded::Done(res) => {
+            if matches!(res, Ok((_, true))) {
+                return; // heuristic rebuild replaced the triangulation: not a flip path
+            }
+            let steps: Vec<serde_json::Value> = steps_raw
+                .iter()
+                .map(|(k, a, b)| {
+                    let aa: Vec<i64> = a.iter().map(|u| cx.tr.vid(*u)).collect();
+                    let bb: Vec<i64> = b.iter().map(|u| cx.tr.vid(*u)).collect();
+                    serde_json::json!({"k": k, "A": aa, "B": bb})
+                })
+                .collect();
+            let post = cells_as_ids(&mut cx.tr, &dt);
+            let (kind, flips) = match &res {
+                Ok((f, _)) => ("Ok", *f as i64),
+                Err(_) => ("Err", -1),
+            };
+            // the record itself (flat, as Trace_FlipRepair expects it) is written as its own line
+            let rec = serde_json::json!({"ev": "RepairTraceRec", "tag": cx.tr.tag, "D": D, "pts": pts_by_id, "pre": pre, "steps": steps, "post": post,
+                                         "kind": kind, "flips": flips, "adv": adv, "panic": false, "timeout": false});
+            cx.tr.append_raw_cases(&rec.to_string());
+        }
+        Guarded::Panicked(msg) => {
+            let rec = serde_json::json!({"ev": "RepairTraceRec", "tag": cx.tr.tag, "D": D, "pts": pts_by_id, "pre": pre, "steps": [], "post": pre,
+                                         "kind": "Panic", "msg": msg, "flips": -1, "adv": adv, "panic": true, "timeout": false});
+            cx.tr.append_raw_cases(&rec.to_string());
+        }
+    }
+}
+
+pub fn drive_repairtrace(cx: &mut Ctx) {
+    let per_dim = if cx.thorough { 400 } else { 60 };
+    for d in 2..=3usize {
+        for i in 0..per_dim {
+            let mut r = Rng::new(cx.seed * 1_300_021 + (d * 100_000 + i) as u64);
+            if !cx.mine() {
+                continue;
+            }
+            let k = (i / 2) % 2;
+            match (d, k) {
+                (2, 0) => repairtrace_case::<FastKernel<f64>, 2>(cx, &mut r, i),
+                (2, _) => repairtrace_case::<RobustKernel<f64>, 2>(cx, &mut r, i),
+                (_, 0) => repairtrace_case::<FastKernel<f64>, 3>(cx, &mut r, i),
+                (_, _) => repairtrace_case::<RobustKernel<f64>, 3>(cx, &mut r, i),
+            }
+        }
+    }
+}
+
+// ---------------------------------------------------------------------------------------
+// oracle self-test: the seeded C07 scenario (4-D, a k=3 inverse whose inserted simplex already exists)
+// ---------------------------------------------------------------------------------------
+pub fn drive_c07demo(cx: &mut Ctx) {
+    type K4 = FastKernel<f64>;
+    const POINTS: [[f64; 4]; 9] = [
+        [8.283892529250757, 7.997376657214453, 6.679482909942198, 9.777315882311102],
+        [5.213092184734268, 4.389369447174913, 2.67864123689045, 6.599429690156454],
+        [4.091876442597795, 5.98425075521453, 9.953799853794061, 0.6274303274576143],
+        [3.138931189890639, 0.07397924353683916, 6.034157619568314, 4.741118998890945],
+        [4.724526974544975, 0.7879127489386939, 6.198532498325779, 8.857955032862781],
+        [5.126707983247708, 4.189710929826873, 7.213767570143684, 4.8327188258342],
+        [3.5428408129931057, 7.169996155313729, 8.169569578633972, 5.17528068595672],
+        [2.4024441469006863, 7.35309285408121, 3.051446319730733, 5.164195866599974],
+        [9.34686036292794, 0.5738467821524773, 6.128133996538239, 2.6984212685170137],
+    ];
+    let ops: Vec<Vec<usize>> = vec![
+        vec![2, 8, 7, 5], vec![0, 6, 5], vec![3, 1, 5], vec![4, 2, 7], vec![3, 6, 5], vec![8, 4, 7],
+        vec![5, 8, 7], vec![8, 2, 5], vec![2, 4, 7], vec![3, 5, 4, 7], vec![6, 3, 5, 4], vec![6, 0, 5],
+    ];
+    cx.start_case("C07 seeded-scenario self-test D=4".to_string());
+    let vs: Vec<Vertex<f64, VData, 4>> = POINTS.iter().enumerate().map(|(i, p)| Vertex::new_with_uuid(Point::new(*p), mk_uuid(900 + i as u64), Some(i as i32))).collect();
+    let Ok(mut dt) = Dt::<K4, 4>::with_kernel(&K4::default(), &vs) else { return };
+    let post = cx.tr.project(&dt);
+    cx.tr.emit("Adopt", 0, serde_json::json!({"D": 4, "why": "C07 scenario"}), serde_json::json!({}), Some(post), false);
+    let key_of = |dt: &Dt<K4, 4>, i: usize| dt.vertices().find(|(_, v)| v.uuid() == mk_uuid(900 + i as u64)).map(|(k, _)| k).unwrap();
+    for op in &ops {
+        let want: Vec<VertexKey> = op.iter().map(|&i| key_of(&dt, i)).collect();
+        let mut found: Option<FlipArg> = None;
+        for (ck, c) in dt.cells() {
+            let vsx = c.vertices();
+            if want.iter().all(|k| vsx.contains(k)) {
+                let omit: Vec<u8> = vsx.iter().enumerate().filter(|(_, v)| !want.contains(v)).map(|(i, _)| i as u8).collect();
+                found = Some(if op.len() == 4 { FlipArg::K2(ck, omit[0]) } else { FlipArg::K3(ck, omit[0], omit[1]) });
+                break;
+            }
+        }
+        let Some(fa) = found else { return };
+        let out = op_flip(&mut cx.tr, 0, &mut dt, &fa, 0, "scenario");
+        if !out.ok {
+            return;
+        }
+    }
+    let fa = FlipArg::K3Inv(key_of(&dt, 2), key_of(&dt, 0), key_of(&dt, 5));
+    op_flip(&mut cx.tr, 0, &mut dt, &fa, 0, "scenario-final");
 }
